@@ -39,7 +39,7 @@ def run(ctx):
                    ["-shards", str(nsh), "-per", str(ctx.pick(2, 20)), "-classes", "inflate,subst,garbage,prefix,extra", "-cap", str(ctx.pick(4, 10))])
     f2 = ex.submit(codecfam.run_driver, ctx, exe, "hostile", "host",
                    ["-shards", str(nsh), "-alen", str(ctx.pick(2, 3)), "-rand", str(ctx.pick(1500, 20000)),
-                    "-nest", str(ctx.pick(200000, 10 * 1024 * 1024))], 3400)
+                    "-nest", str(ctx.pick(200000, 10 * 1024 * 1024)), "-deep", str(ctx.pick(5000000, 0))], 3400)
     # network receive paths: hostile frames / datagrams against real server children (tcp and udp), liveness probed
     netout = os.path.join(ctx.work, "net.ndjson")
     f3 = ex.submit(sh, [callexe, "-mode", "hostile", "-seed", str(ctx.seed), "-hostile", str(ctx.pick(300, 6000)), "-out", netout], None, None, 3400)
@@ -116,7 +116,10 @@ def run(ctx):
         "selftest_corrupted_records": st, "exhaustive": False,
         "entry_points": ["ReadFrom of %d generated struct types" % len(schema["order"]), "tup.UniAttribute.Decode",
                          "tcp server receive path (framing -> Protocol.Invoke -> generated dispatcher), real process",
-                         "udp server receive path, real process"],
+                         "udp server receive path, real process",
+                         "client receive path, real process: generated proxy of idl/Call.tars making genuine calls through a "
+                         "man-in-the-middle that rewrites the real server's responses (hostile return values, mutated packets, "
+                         "hostile header fields, random bodies, illegal length prefixes, pushes)"],
     }
 
 
